@@ -300,13 +300,22 @@ pub fn c16_strings_child(cfg: &Cfg) -> i32 {
 
 // ---------------------------------------------------------------------------------------------
 /// C17 — W11: one-feature changes, enumerated completely per base state.
+thread_local! {
+    /// un-hashed context of the constructed states: (a piece was captured this turn, move number, extra history entries)
+    static C17_CTX: std::cell::Cell<(bool, usize, usize)> = std::cell::Cell::new((false, 2, 0));
+}
 fn c17_state(b: &MBoard, gold: bool, step: u8, pend: Pend) -> GameState {
+    let (trapped, moveno, extra) = C17_CTX.with(|c| c.get());
     let pb = piece_board_of(b);
     let h = Zobrist::from_piece_board(pb.piece_board(), gold, step as usize);
     let h0 = Zobrist::from_piece_board(pb.piece_board(), gold, 0);
     let prev: Vec<PieceBoard> = (0..step).map(|_| piece_board_of(b)).collect();
-    let pp = PlayPhase::new(h0, List::new().append(h0), prev, encode_pend(pend), false);
-    GameState::new(gold, 2, Phase::PlayPhase(pp), pb, h)
+    let mut hist = List::new();
+    for k in 0..extra {
+        hist = hist.append(Zobrist::from_piece_board(piece_board_of(&MBoard::empty()).piece_board(), k % 2 == 0, 0));
+    }
+    let pp = PlayPhase::new(h0, hist.append(h0), prev, encode_pend(pend), trapped);
+    GameState::new(gold, moveno, Phase::PlayPhase(pp), pb, h)
 }
 fn c17_hash(b: &MBoard, gold: bool, step: u8, pend: Pend) -> Result<u64, PanicInfo> {
     guard("constructors + transposition_hash", || c17_state(b, gold, step, pend).transposition_hash())
@@ -386,20 +395,29 @@ fn c17_base(b: &MBoard, gold: bool, step: u8, pend: Pend, base_name: &str, sink:
             family(&format!("piece_location:{} in context side={} step={} status={:?}", cell_char(c), if g2 { 'g' } else { 's' }, st2, p2), v, sink);
         }
     }
-    // side / step / status: every one-feature change in EVERY context of the other two
+    // side / step / status: every one-feature change in EVERY context of the other two - once in the plain
+    // un-hashed context and once in the context "a piece was captured this turn, later move, longer history"
+    for ctx in 0..2 {
+    if ctx == 1 {
+        C17_CTX.with(|c| c.set((true, 3 + next() % 200, 1 + next() % 40)));
+        sink.count("bases_also_in_capture_this_turn_context");
+    }
+    let tag = if ctx == 1 { " (captured-this-turn context)" } else { "" };
     for st in 0..4u8 {
         for p in &statuses {
-            family(&format!("side: at step={} status={:?}", st, p), vec![("gold".into(), c17_hash(b, true, st, *p)), ("silver".into(), c17_hash(b, false, st, *p))], sink);
+            family(&format!("side: at step={} status={:?}{}", st, p, tag), vec![("gold".into(), c17_hash(b, true, st, *p)), ("silver".into(), c17_hash(b, false, st, *p))], sink);
         }
     }
     for g in [true, false] {
         for p in &statuses {
-            family(&format!("step: at side={} status={:?}", if g { 'g' } else { 's' }, p), (0..4u8).map(|k| (format!("step{}", k), c17_hash(b, g, k, *p))).collect(), sink);
+            family(&format!("step: at side={} status={:?}{}", if g { 'g' } else { 's' }, p, tag), (0..4u8).map(|k| (format!("step{}", k), c17_hash(b, g, k, *p))).collect(), sink);
         }
         for st in 0..4u8 {
-            family(&format!("status: at side={} step={}", if g { 'g' } else { 's' }, st), statuses.iter().map(|p| (format!("{:?}", p), c17_hash(b, g, st, *p))).collect(), sink);
+            family(&format!("status: at side={} step={}{}", if g { 'g' } else { 's' }, st, tag), statuses.iter().map(|p| (format!("{:?}", p), c17_hash(b, g, st, *p))).collect(), sink);
         }
     }
+    }
+    C17_CTX.with(|c| c.set((false, 2, 0)));
     sink.count("bases");
 }
 /// C17 on states reached by play: the hash the engine carries for a reached state (maintained
@@ -462,6 +480,38 @@ impl Monitor for C17Play {
         }
         if status != PushPullState::None && scratch(&b, gold, step, PushPullState::None).ok() == Some(h) {
             s.violate_game("C17", "reached_state_hash_equals_no_status", t.rec, format!("status {:?} board={}", status, b.compact()));
+        }
+        // status variants built as full states in the reached state's own un-hashed context (earlier boards,
+        // capture-this-turn flag, history, move number): the same pending square with every other piece type,
+        // and a few other statuses
+        let pend = decode_pend(status);
+        let mut others: Vec<Pend> = vec![];
+        match pend {
+            Pend::Push(sq, ty) => others.extend((0..5u8).filter(|x| *x != ty).map(|x| Pend::Push(sq, x))),
+            Pend::Pull(sq, ty) => others.extend((1..6u8).filter(|x| *x != ty).map(|x| Pend::Pull(sq, x))),
+            Pend::None => {}
+        }
+        let sq_to = nb(code_sq(t.code), code_dir(t.code)).unwrap_or(0) as u8;
+        for ty in 0..5u8 {
+            others.push(Pend::Push(code_sq(t.code) as u8, ty));
+            others.push(Pend::Pull(code_sq(t.code) as u8, ty + 1));
+            others.push(Pend::Push(sq_to, ty));
+        }
+        others.retain(|p| *p != pend);
+        let after = t.after;
+        for p2 in others {
+            self.variants += 1;
+            let hv = guard("status variant in reached context", || {
+                let pp = after.unwrap_play_phase();
+                let pbs = after.piece_board();
+                let z = Zobrist::from_piece_board(pbs, gold, step as usize);
+                let z0 = Zobrist::from_piece_board(after.piece_board_for_step(0), gold, 0);
+                let npp = PlayPhase::new(z0, pp.hash_history().clone(), pp.previous_piece_boards().to_vec(), encode_pend(p2), pp.piece_trapped_this_turn());
+                GameState::new(gold, after.move_number(), Phase::PlayPhase(npp), piece_board_of(&b), z).transposition_hash()
+            });
+            if hv.ok() == Some(h) {
+                s.violate_game("C17", "reached_state_hash_equals_other_status", t.rec, format!("after {} the engine's hash {:#018x} (status {:?}) equals the hash of the same state (same board, side, step, earlier boards, capture flag, history) built with status {:?}; board={}", code_text(t.code), h, status, encode_pend(p2), b.compact()));
+            }
         }
     }
     fn finish(&mut self, s: &mut Sink) {
